@@ -233,6 +233,11 @@ def run(R):
               "tolerances; the judged fits pass no options and must meet the ordinary certificates. When an excitation answer is not certified, an "
               "in-bound point with a lower objective is searched (LP bisection, untrusted) and evaluated exactly by the model: better by more "
               "than eps => the answer is not a global minimiser (predicate failure with that point as witness). "
+              "Targets relative to the dark capture: for systems with a non-zero baseline the first outside target is (always when weights and baseline are combined, else 60 %) the light-induced capture of a "
+              "corner of the gamut (all sources at ub / at lb) plus theta_c x K*baseline with theta_c in {0, 1/4, 1/2, 1, 3/2, 2} per receptor (not all 1): between the extreme light-induced and the extreme total capture; "
+              "judged for optimality like every target not known to be in gamut. Finely sampled sequences: one (thorough: three) series of 112..144 slowly varying targets (frames of an intensity ramp, 0.055..0.107 % per frame, "
+              "8..12 % in total; in gamut, or pushed out of it by a fixed factor per receptor; captures of order one) is fitted in ONE call by each model (solver=CLARABEL); the first, the last and four random frames are judged "
+              "exactly like the rows of the small batches - every frame is a target of its own, whatever its neighbours are. "
               "Non-trivial: target outside the gamut or on its boundary, or baseline non-zero.")
     KINDS = ["inside", "inside", "boundary", "outside", "outside"]
     rows = []
@@ -271,6 +276,25 @@ def run(R):
                 if bc_ is not None:
                     B[4] = bc_
                     kinds = kinds[:4] + ["outside-corner"]
+        # the first outside target (own random stream; systems with a non-zero baseline: always when weights and baseline are combined, else 60 %):
+        # the capture of a corner of the gamut - all sources at ub (finite bounds) or all at lb - with the dark capture K*baseline counted a different
+        # number of times in every receptor: light-induced capture of the corner + theta_c x baseline', theta_c in {0, 1/4, 1/2, 1, 3/2, 2} ({0, 1, 2} for
+        # whole-number data), not all 1. Such targets lie between 'the brightest / darkest light-induced capture' and 'the brightest / darkest TOTAL
+        # capture': both objectives are documented on the total capture. Judged like every target that is not known to be in gamut (optimality only).
+        cr = R.rng(12, si)
+        if np.any(S["bp"] != 0) and (both or cr.random() < 0.6):
+            hi_ = bool(np.all(np.isfinite(S["ub"]))) and cr.random() < 0.7
+            th_ = cr.choice([0.0, 1.0, 2.0] if whole else [0.0, 0.25, 0.5, 1.0, 1.5, 2.0], size=S["nf"])
+            nzb_ = np.flatnonzero(S["bp"] != 0)
+            if np.all(th_[nzb_] == 1.0):
+                th_[int(cr.choice(nzb_))] = float(cr.choice([0.0, 2.0] if whole else [0.0, 0.5]))
+            B[3] = np.clip(S["Ap"] @ (S["ub"] if hi_ else S["lb"]) + th_ * S["bp"], FLOOR, 100.0)
+            kinds = list(kinds); kinds[3] = "corner+baseline-multiples"
+            R.count("first-outside-target:%s corner + baseline multiples" % ("bright" if hi_ else "dark"))
+            R.count("first-outside-target:bright corner, every receptor >= light-induced all-on capture, some < total all-on capture:%s"
+                    % bool(hi_ and np.any(B[3] < S["Ap"] @ S["ub"] + S["bp"])))
+        else:
+            R.count("first-outside-target:outside")
         R.count("second-outside-target:%s" % kinds[4])
         nf, ns = S["nf"], S["ns"]
         ingamut = [kd in ("inside", "boundary") and bool(np.all(B[i] > FLOOR)) for i, kd in enumerate(kinds)]    # not raised to the floor
@@ -438,6 +462,66 @@ def run(R):
         if ste == "ok":
             for i in range(len(B)):
                 R.driver.ask("e%s_%d" % (k, i), "excdoc", ms(Ap), vs(bp), vs(B[i]), vs(np.clip(oe[0][i], S["lb"], S["ub"])))
+        rows.append((c, S, B, wv, (stg, og), (stp, op_), (ste, oe)))
+    # ---- finely sampled sequences (own random stream; ONE per quick run, three per thorough run): a slowly varying series of N = 112..144 targets - the frames of
+    # an intensity ramp x_t = x_0 (1+r)^t with r = total / N, total in {8, 10, 12} % (0.055 .. 0.107 % per frame), in gamut, or the same captures
+    # pushed out of the gamut by a fixed factor per receptor - fitted in ONE call by each of the three models (solver=CLARABEL: the default
+    # engine of the excitation model takes about a second per frame). Every frame is a target of its own: the first, the last and four random frames
+    # are judged exactly like the rows of the small batches (Poisson gap, excitation objective + level certificate, in-gamut reproduction).
+    for qi in range(1 if R.tier == "quick" else 3):
+        k = "q%d" % qi
+        if not R.want(k):
+            continue
+        qr = R.rng(11, qi)
+        S = gen_wellscaled(qr, nf=int(qr.integers(2, 4)), ns=int(qr.integers(2, 5)), K_kinds=("none", "scalar", "vector"), ub_kinds=("finite",), lb_kinds=("zero", "zero", "pos"))
+        # captures of order one (as above: the smallest channel extent in [1, 2)), where the excitation objective is sensitive to the captures
+        j_ = int(np.floor(np.log2(float(np.min((np.abs(S["Ap"]) * (S["ub"] - S["lb"])).sum(axis=1))))))
+        if j_ > 0:
+            S["A"] = S["A"] / 2.0 ** j_; S["Ap"] = S["Ap"] / 2.0 ** j_
+        nfr = int(qr.integers(112, 145)); total = float(qr.choice([0.08, 0.10, 0.12])); rstep = total / nfr
+        x0 = S["lb"] + dyadic(qr, 0.25, 0.625, 3, size=S["ns"]) * (S["ub"] - S["lb"])
+        Xseq = x0[None, :] * ((1.0 + rstep) ** np.arange(nfr))[:, None]
+        assert np.all(Xseq <= S["ub"]) and np.all(Xseq >= S["lb"])
+        Bseq = Xseq @ S["Ap"].T + S["bp"]
+        skind = "inside" if qr.random() < 0.67 else "outside"
+        if skind == "outside":
+            f_ = dyadic(qr, 0.25, 4, 2, size=S["nf"]); f_[int(qr.integers(S["nf"]))] = 4.0
+            Bseq = Bseq * f_ + 1.0
+        Bseq = np.maximum(Bseq, 0.125)
+        J = sorted(set([0, nfr - 1] + [int(v) for v in qr.integers(1, nfr - 1, size=4)]))
+        R.count("sequence:%s, %d frames, %.3f %% per frame" % ("in-gamut ramp" if skind == "inside" else "out-of-gamut ramp", nfr, 100 * rstep))
+        R.count("sequence:largest relative change between consecutive frames < 1e-3:%s" % bool(np.max(np.abs(np.diff(Bseq, axis=0)) / Bseq[:-1]) < 1e-3))
+        for key in ("K_kind", "baseline_kind"):
+            R.count("%s:%s" % (key, S[key]))
+        gq = as_given(qr, Bseq, R, "B(sequence)", kinds=("same", "fortran", "strided", "list"))
+        kwq = dict(lb=S["lb"], ub=S["ub"], W=None, K=S["K"], baseline=S["baseline"], return_pred=True, solver="CLARABEL")
+        stg, og = call(lsq_linear, S["A"], gq, **kwq)
+        stp, op_ = call(lsq_linear, S["A"], gq, model="poisson", **kwq)
+        ste, oe = call(lsq_linear_excitation, S["A"], gq, **kwq)
+
+        def sub_(st_, o_, nfr=nfr, J=J, S=S):
+            if st_ != "ok":
+                return st_, o_
+            try:
+                X_, P_ = np.asarray(o_[0], dtype=float), np.asarray(o_[1], dtype=float)
+                if X_.shape != (nfr, S["ns"]) or P_.shape != (nfr, S["nf"]):
+                    return "shape", "answer for a sequence of %d frames has shapes %s, %s" % (nfr, X_.shape, P_.shape)
+                return "ok", (X_[J], P_[J])
+            except Exception as e_:  # noqa: BLE001
+                return "shape", "answer for a sequence is not a pair of arrays: %s" % e_
+        (stg, og), (stp, op_), (ste, oe) = sub_(stg, og), sub_(stp, op_), sub_(ste, oe)
+        B = Bseq[J]; wv = np.ones((len(J), S["nf"]))
+        c = dict(k=k, nf=S["nf"], ns=S["ns"], A=S["A"], K=S["K"], K_kind=S["K_kind"], baseline=S["baseline"], baseline_kind=S["baseline_kind"], lb=S["lb"], ub=S["ub"],
+                 W=None, weights_kind="none", B=B, target_kinds=[skind] * len(J), whole=False, batch_size=1, via="function", iteration_limit=None,
+                 sequence=dict(frames=nfr, relative_step_per_frame=rstep, first_intensities=x0, B=Bseq, judged_frames=J, solver="CLARABEL",
+                               note="all frames are fitted in ONE call; B above holds the judged frames only"))
+        c["_w"] = (None, None); c["_ingamut"] = [skind == "inside"] * len(J); c["_wrows"] = []; c["_lim"] = (None, None)
+        if stp == "ok":
+            for i in range(len(B)):
+                R.driver.ask("p%s_%d" % (k, i), "poisgap", S["ns"], ms(S["Ap"]), vs(S["bp"]), vs(wv[i]), vs(B[i]), vs(S["lb"]), ub_text(S["ub"]), vs(np.clip(op_[0][i], S["lb"], S["ub"])))
+        if ste == "ok":
+            for i in range(len(B)):
+                R.driver.ask("e%s_%d" % (k, i), "excdoc", ms(S["Ap"]), vs(S["bp"]), vs(B[i]), vs(np.clip(oe[0][i], S["lb"], S["ub"])))
         rows.append((c, S, B, wv, (stg, og), (stp, op_), (ste, oe)))
     R.driver.run()
     # second round: excitation level certificates at t_hat - eps
